@@ -218,11 +218,17 @@ func verifH_C09_gorilla() { verifC09(3) }
 //verif:harness id=C09 tier=thorough witness=end bounds="as quick with request paths of up to 4 bytes"
 func verifH_C09_gorilla5() { verifC09(5) }
 
-//verif:harness id=C09 tier=quick,thorough witness=end bounds="gorilla/mux-based router, path-level servers: document server in {none, /v1, /, /v1/}; paths /a, /m, /z where exactly one of them (explorer's choice) declares its own server /own; requests base in {none,/v1,/own} x path in {/a,/m,/z}: a path is routed exactly under its own servers if it declares some, else under the document's"
+//verif:harness id=C09 tier=quick,thorough witness=end bounds="gorilla/mux-based router, path-level servers: document server in {none, /v1, /, /v1/, /my%20api, https://h.example/my%20api}; paths /a, /m, /z where exactly one of them (explorer's choice) declares its own server /own; requests base in {none,/v1,/own,/my%20api} x path in {/a,/m,/z}: a path is routed exactly under its own servers if it declares some, else under the document's"
 func verifH_C09_gorilla_path_servers() {
 	doc, ops := verifDoc([]string{"/a", "/m", "/z"}, 0)
 	docBase := ""
-	switch verifChoose("docServer", 4) {
+	switch verifChoose("docServer", 6) {
+	case 4:
+		doc.Servers = openapi3.Servers{{URL: "/my%20api"}} // a percent-encoded character in the base path
+		docBase = "/my%20api"
+	case 5:
+		doc.Servers = openapi3.Servers{{URL: "https://h.example/my%20api"}}
+		docBase = "/my%20api"
 	case 1:
 		doc.Servers = openapi3.Servers{{URL: "/v1"}}
 		docBase = "/v1"
@@ -242,9 +248,13 @@ func verifH_C09_gorilla_path_servers() {
 	if err != nil {
 		return
 	}
-	reqBase := []string{"", "/v1", "/own"}[verifChoose("reqBase", 3)]
+	reqBase := []string{"", "/v1", "/own", "/my%20api"}[verifChoose("reqBase", 4)]
 	p := []string{"/a", "/m", "/z"}[verifChoose("path", 3)]
-	route, _, ferr := router.FindRoute(&http.Request{Method: "GET", URL: &url.URL{Path: reqBase + p}, Header: http.Header{}})
+	u := &url.URL{Scheme: "https", Host: "h.example", Path: reqBase + p}
+	if reqBase == "/my%20api" {
+		u.Path, u.RawPath = "/my api"+p, reqBase+p // as net/http parses the request line
+	}
+	route, _, ferr := router.FindRoute(&http.Request{Method: "GET", Host: "h.example", URL: u, Header: http.Header{}})
 	wantBase := docBase
 	if p == own {
 		wantBase = "/own"
